@@ -181,7 +181,10 @@ func ElideError(err error) string {
 	case *net.UnknownNetworkError:
 		return "unknown network " + elidedAddr
 	case *net.OpError:
-		return t.Op + ": " + t.Err.Error()
+		// The inner error may itself be a net.Error that includes addresses
+		// (eg: a DNSError or AddrError when a dial fails), so sanitize it as
+		// well instead of using its string representation verbatim.
+		return t.Op + ": " + ElideError(t.Err)
 	default:
 		// For unknown error types, do the conservative thing and only log the
 		// type of the error instead of assuming that the string representation
